@@ -102,6 +102,80 @@ def match_predicate_rule(ctx, facts, cfg):
                       'different name (or an equal name not be found)' % (len(bad), c1, c2, 'equal' if got is False else 'different' if got else 'position-dependent'), site=f['at'], config=cfg)
 
 
+def _range_contains_lower(g, gd, e):
+    """LO when e is `RangeInclusive::contains(&(LO..=HI), &x)` / `Range::contains(&(LO..HI), &x)` on a range of constants, else None"""
+    if e[0] != 'call' or not (e[1].endswith('RangeInclusive::<Idx>::contains') or e[1].endswith('Range::<Idx>::contains')) or len(e[2]) != 2:
+        return None
+    r = e[2][0]
+    if r[0] != 'ref' or not isinstance(r[1], dict):
+        return None
+    d = gd.get(r[1]['local'])
+    if not d or d[0] != 'rv' or d[1]['k'] != 'use' or d[1]['x'].get('k') != 'const' or d[1]['x'].get('promoted') is None:
+        return None
+    pr = (g.get('promoted') or [])
+    i = d[1]['x']['promoted']
+    if i >= len(pr):
+        return None
+    for b in pr[i]['blocks']:
+        t = b['term']
+        if t['k'] == 'call' and ((F.call_path(t) or '').endswith('RangeInclusive::<Idx>::new')) and len(t['args']) == 2:
+            lo = F.op_const(t['args'][0])
+            return lo if isinstance(lo, int) else None
+        for st in b['stmts']:
+            if st['k'] == 'assign' and st['rv']['k'] == 'aggregate' and st['rv'].get('adt') in ('std::ops::Range', 'std::ops::RangeInclusive') and st['rv']['ops']:
+                lo = F.op_const(st['rv']['ops'][0])
+                return lo if isinstance(lo, int) else None
+    return None
+
+
+def _is_len_of_arg(g, gd, x, param):
+    """is the tested value (seen through a reference) the length of the slice parameter `param`?"""
+    if x[0] != 'ref' or not isinstance(x[1], dict):
+        return False
+    rs = F.roots_place(g, gd, {'local': x[1]['local'], 'proj': [], 'ty': {}})
+    for r in rs:
+        if r[0] == 'call' and r[1].endswith('::len') and r[2]['args']:
+            return any(rr == ('param', param) for rr in F.roots(g, gd, r[2]['args'][0]))
+    return False
+
+
+def _offsets_handed_to_insert(facts):
+    """largest value of the offset argument over all call sites of SuffixDict::insert (E4 probe in each caller); None if some site
+    has no constant upper bound"""
+    from analysis.e4 import E4
+    from analysis.interp import Int
+    callers = set()
+    for ck, cf in facts.fns.items():
+        for _, b in F.blocks(cf):
+            t = b['term']
+            if t['k'] == 'call' and INS in facts.callee_keys(cf, t):
+                callers.add(ck)
+    if not callers:
+        return None
+    worst = None
+    for ck in sorted(callers):
+        e4 = E4(facts, probes=[('SuffixDict::insert', ck)], budget_s=200)
+        try:
+            e4.summarize(ck)
+        except Exception:  # noqa
+            return None
+        seen = False
+        for p in e4.probes():
+            if p.get('kind') != 'call' or p['fn'] != ck or not p['callee'].endswith('SuffixDict::insert') or len(p['args']) < 3:
+                continue
+            a = p['args'][2]
+            if not isinstance(a, Int):
+                return None
+            hi = p['C'].bounds(a.e)[1]
+            if hi is None:
+                return None
+            worst = hi if worst is None else max(worst, hi)
+            seen = True
+        if not seen:
+            return None
+    return worst
+
+
 def pointer_rule(ctx, facts, cfg):
     rid = 'C06.c'
     f = facts.fn(WORK)
@@ -156,12 +230,28 @@ def pointer_rule(ctx, facts, cfg):
                     safe_off = safe_off or ('wrong', e[1], e[3][1])
             if e[0] == 'binop' and e[1] == 'Le' and e[3] == ('const', 2):
                 safe_len = [tb for v, tb in t['targets'] if v == 0]
+            if e[0] == 'binop' and e[1] == 'Lt' and e[3] == ('const', 3):
+                safe_len = [tb for v, tb in t['targets'] if v == 0]
+            if e[0] == 'binop' and e[1] in ('Ge', 'Gt') and e[3] == ('const', 3 if e[1] == 'Ge' else 2):
+                safe_len = [t['otherwise']] if all(v == 0 for v, _ in t['targets']) else [tb for v, tb in t['targets'] if v == 1]
+            lo_ = _range_contains_lower(g, gd, e)
+            if lo_ is not None and lo_ >= 3 and _is_len_of_arg(g, gd, e[2][1], 2):
+                # `(LO..=HI).contains(&suffix.len())` with LO >= 3: the true edge
+                safe_len = [t['otherwise']] if all(v == 0 for v, _ in t['targets']) else [tb for v, tb in t['targets'] if v == 1]
     stores = [(bi, s) for bi, b in F.blocks(g) for s in b['stmts'] if s['k'] == 'assign' and F.last_field(s['place']) == ('compress::Suffix', 'offset')]
     some_rets = [bi for bi, b in F.blocks(g) for s in b['stmts'] if s['k'] == 'assign' and not s['place']['proj'] and s['place']['local'] == 0
                  and s['rv']['k'] == 'aggregate' and s['rv'].get('variant') == 'Some']
     ok_off = isinstance(safe_off, list) and bool(safe_off) and bool(stores) and all(safe_off[0] in dom.get(bi, ()) or safe_off[0] == bi for bi, s in stores) \
         and all(safe_off[0] in dom.get(bi, ()) or safe_off[0] == bi for bi in some_rets)
-    ctx.instance(rid, 'SuffixDict::insert: `offset >= 16384 -> None` dominates the store of the offset and every lookup hit', ok=ok_off, site=g['at'])
+    where_off = 'in insert'
+    if not ok_off and not (isinstance(safe_off, tuple) and safe_off and safe_off[0] == 'wrong'):
+        # the guard may sit in front of the call instead: every call site hands over an offset the caller has bounded (E4 probe)
+        hi = _offsets_handed_to_insert(facts)
+        if hi is not None and hi <= 16383 and bool(stores):
+            ok_off, where_off = True, 'at every call site (largest offset handed over: %d)' % hi
+        else:
+            safe_off = 'none in insert; largest offset handed over by the callers: %s' % hi
+    ctx.instance(rid, 'SuffixDict::insert: `offset >= 16384 -> None` dominates the store of the offset and every lookup hit (%s)' % where_off, ok=ok_off, site=g['at'])
     if not ok_off:
         ctx.violation(rid, INS, 'offset-fits-14-bits', 'an offset can be stored in (or a hit returned from) the suffix dictionary without the dominating test `offset >= 16384 -> None` (found: %s): '
                       'a pointer to offset >= 0x4000 does not fit the 14-bit pointer field' % (safe_off,), site=g['at'], config=cfg)
